@@ -28,8 +28,19 @@ pub fn run(ctx: &Ctx) -> i32 {
         cfg.max_layers = 6;
         cfg.max_frames = 4;
         cfg.extremes = i % 4 == 0;
-        let (sp, palprog) = gen::gen_sprite(&mut rng, &cfg);
+        let (mut sp, palprog) = gen::gen_sprite(&mut rng, &cfg);
+        if i % 5 == 3 {
+            // every layer opaque: such a sprite may be written with the header's "layer opacity valid" bit
+            // clear, which makes the opacity byte of every layer chunk an unused field (junk choice)
+            for l in sp.layers.iter_mut() {
+                l.opacity = 255;
+            }
+        }
+        let sp = sp;
         let mut res = CaseResult::ok(gen::features(&sp), 0, "ok");
+        if sp.layers.iter().all(|l| l.opacity == 255) {
+            res.count("models_with_all_layers_opaque", 1);
+        }
         let exp = expect(&sp, &opts);
         // baseline encoding
         let base_bytes = encode(&compile_with(&sp, &mut rng, &Variation::none(), &palprog)).0;
